@@ -61,20 +61,10 @@ def predJson (p : Rt.Pred) : Json :=
 -- `rowsIffOutputs` (C05, last sentence, as Get and Run show it) is `Sqlair.Rt.rowsIffOutputs`,
 -- `SqlairModel/Spec/DriverClauses.lean`; soundness: `rowsIffOutputs_of_returns_eq`.
 
-/-- C12, "Commit makes all of them take effect together, Rollback none of them": what ends
-    the transaction at the driver (the commit and rollback events, in order) is what the
-    reference machine says the caller's Commit and Rollback calls amount to -/
-def txEndFaithful (c : Case) (p : Pred) (o : Obs) : Bool :=
-  -- (with finishers racing each other the reference machine does not say which one wins)
-  if c.concurrent != 0 then true else
-  let ends (l : List String) := l.filter fun e => e == "commit" || e == "rollback"
-  ends (p.log.map Ev.render) == ends o.events
-
-/-- C15, "Get stores the first row": Get fetches no further than the reference machine does
-    (what lies behind the first row - more rows, a failure - is none of its business) -/
-def getReadsFirstOnly (c : Case) (p : Pred) (o : Obs) : Bool :=
-  if c.op != "get" then true else
-  (o.events.filter (· == "next")).length ≤ ((p.log.map Ev.render).filter (· == "next")).length
+-- `txEndFaithful` (C12) and `getReadsFirstOnly` (C15) are `Sqlair.Rt.txEndFaithful` and
+-- `Sqlair.Rt.getReadsFirstOnly`, `SqlairModel/Spec/DriverClauses.lean`; soundness:
+-- `txEndFaithful_of_events_eq`, `txEndFaithful_model`, `getReadsFirstOnly_of_events_eq`,
+-- `getReadsFirstOnly_model` (`Props/L4Clauses.lean`).
 
 def handleL4 (j : Json) : Except String Json := do
   let c := parseL4Case (← j.getObjVal? "case")
